@@ -8,7 +8,25 @@ IMPORTS = "Bytes RuleSet RuleSetProofs Cors CorsProofs"
 PROFILES = ("dev",)
 IMPL_SHARDS = 8
 PER_SHARD = 20
-THEOREMS = []  # filled below (THEOREMS_PINNED)
+THEOREMS_PINNED = [
+    ('cors_check_is_spec',
+     'forall (parse : bytes -> option uparts) (get : bytes -> option allow_list) (m : N) (s a p : bytes) (o : option bytes), mem_byte c_colon s = false -> check_cors_request parse is_part_of_origin get m (Some s) (Some a) p o = verdict_grant (cors_spec parse get m s a p o)'),
+    ('cors_verdict_most_specific_rule',
+     'forall (parse : bytes -> option uparts) (conn_scheme : bytes) (cfg : ccfg) (hist : list (bytes * allow_list)) (r : request) (a : bytes), rs_reach hist (cc_rules cfg) -> header H_HOST r = Some a -> req_verdict parse conn_scheme cfg r = cors_spec parse (hist_lookup cfg hist) (rq_method r) conn_scheme a (rq_path r) (header H_ORIGIN r)'),
+    ('cors_decision',
+     'forall (parse : bytes -> option uparts) (conn_scheme : bytes) (cfg : ccfg) (c : cache) (now : N) (r0 : request) (a o : bytes), mem_byte c_colon conn_scheme = false -> handlers_external cfg -> no_internal c -> header H_HOST r0 = Some a -> header H_ORIGIN r0 = Some o -> sanitize_ok_fix r0 = true -> stable cfg r0 -> (req_verdict parse conn_scheme cfg r0 = VRefuse -> respond parse is_part_of_origin conn_scheme cfg (c, tt) now r0 = ((c, tt), mkWire 403 [] (if rq_method r0 =? M_HEAD then [] else DENIED) [])) /\\ (req_verdict parse conn_scheme cfg r0 <> VRefuse -> pf_shape r0 = false -> respond parse is_part_of_origin conn_scheme cfg (c, tt) now r0 = (fst (respond parse is_part_of_origin conn_scheme cfg (c, tt) now (strip_origin r0)), let w := snd (respond parse is_part_of_origin conn_scheme cfg (c, tt) now (strip_origin r0)) in mkWire (w_status w) (if cc_with_cors cfg then set_header H_ACAO o (w_headers w) else w_headers w) (w_body w) (w_log w)))'),
+    ('preflight_eq',
+     'forall (parse : bytes -> option uparts) (conn_scheme : bytes) (cfg : ccfg), mem_byte c_colon conn_scheme = false -> handlers_external cfg -> forall (c : cache) (now : N) (r0 : request) (a o : bytes) (ms : option (list N)) (hs : list bytes) (t : N), header H_HOST r0 = Some a -> sanitize_ok_fix r0 = true -> no_internal c -> stable cfg r0 -> pf_shape r0 = true -> header H_ORIGIN r0 = Some o -> verdict_grant (req_verdict parse conn_scheme cfg r0) = Some (ms, hs, t) -> respond parse is_part_of_origin conn_scheme cfg (c, tt) now r0 = ((c, tt), mkWire 204 (let h := [(H_ACAM, methods_bytes ms); (H_ACAH, join_comma hs); (H_ACMA, dec (max_age_secs t))] in if cc_with_cors cfg then h ++ [(H_ACAO, o)] else h) [] [])'),
+    ('cors_cache_independent',
+     'forall (parse : bytes -> option uparts) (conn_scheme : bytes) (cfg : ccfg) (r0 : request) (a : bytes), mem_byte c_colon conn_scheme = false -> handlers_external cfg -> header H_HOST r0 = Some a -> sanitize_ok_fix r0 = true -> stable cfg r0 -> (forall ops now, no_internal (fst (run_conn_state parse is_part_of_origin conn_scheme cfg ([], tt) now ops))) /\\ (req_verdict parse conn_scheme cfg r0 = VRefuse \\/ (pf_shape r0 = true) -> forall c1 c2 now1 now2, no_internal c1 -> no_internal c2 -> snd (respond parse is_part_of_origin conn_scheme cfg (c1, tt) now1 r0) = snd (respond parse is_part_of_origin conn_scheme cfg (c2, tt) now2 r0) /\\ fst (respond parse is_part_of_origin conn_scheme cfg (c1, tt) now1 r0) = (c1, tt))'),
+    ('same_origin_unaffected',
+     'forall (parse : bytes -> option uparts) (conn_scheme : bytes) (cfg : ccfg) (st : state unit) (now : N) (r0 : request) (a o : bytes), mem_byte c_colon conn_scheme = false -> header H_HOST r0 = Some a -> header H_ORIGIN r0 = Some o -> sanitize_ok_fix r0 = true -> stable cfg r0 -> req_verdict parse conn_scheme cfg r0 = VSame -> pf_shape r0 = false -> respond parse is_part_of_origin conn_scheme cfg st now r0 = (fst (respond parse is_part_of_origin conn_scheme cfg st now (strip_origin r0)), let w := snd (respond parse is_part_of_origin conn_scheme cfg st now (strip_origin r0)) in mkWire (w_status w) (if cc_with_cors cfg then set_header H_ACAO o (w_headers w) else w_headers w) (w_body w) (w_log w))'),
+    ('acao_path_rewrite_refuted',
+     'exists (cfg : ccfg) (r : request), handlers_external cfg /\\ sanitize_ok_fix r = true /\\ req_verdict parse_uri CONN_SCHEME cfg r = VRefuse /\\ ~ stable cfg r /\\ snd (respond parse_uri is_part_of_origin CONN_SCHEME cfg ([], tt) 0 r) = mkWire 403 [(H_ACAO, B "https://evil.example")] DENIED []'),
+    ('null_origin_v0_refuted',
+     'exists (cfg : ccfg) (r : request), handlers_external cfg /\\ sanitize_ok_fix r = true /\\ req_verdict parse_uri CONN_SCHEME cfg r = VRefuse /\\ stable cfg r /\\ snd (respond parse_uri is_part_of_origin_v0 CONN_SCHEME cfg ([], tt) 0 r) = mkWire 200 [(H_ACAO, B "null")] (B "h0:/api/x") [B "h0"]'),
+]
+THEOREMS = THEOREMS_PINNED
 
 RULE = ("(a) cors.conn: histories of HTTP/1.1 requests over a loopback TCP pair through the public kvarn::handle_connection against a host with "
         "Extensions::new()/empty() + with_cors(rules)/with_disallow_cors(), marker Prepare handlers that log their invocation and the response "
@@ -36,7 +54,17 @@ TRUSTED = ["modelled: src/cors.rs (whole file), src/extensions.rs resolve_prime 
            "(Model/RuleSet.v), src/lib.rs handle_cache (override URI as lookup and Prepare key; Model/Cache.v), SendKind::send's Package step for the "
            "with_cors package only; other packages (server, referrer-policy, CSP) and the wire printer are not modelled: only the reported headers, "
            "status, body and handler log are compared"]
-LEVEL_TEXT = ""   # set below
+LEVEL_TEXT = ("Coq theorems, for every rule set, request, parser and cache state that no history can exclude: cors_check_is_spec + "
+              "cors_verdict_most_specific_rule (the code's check is the 15-line decision function cors_spec applied to the most specific rule of "
+              "the configuration history, last added wins, whatever order sort_unstable_by produces); cors_decision (refused => exactly 403, no "
+              "handler invoked, no header, cache untouched; allowed or same origin => reply and new state of the same request without Origin plus "
+              "access-control-allow-origin = the origin bytes); preflight_eq (204 with exactly the rule's methods / headers / max-age rounded up); "
+              "cors_cache_independent (no history stores anything under /./cors_*, and in every such cache state a refused request and a preflight "
+              "get one and the same reply); same_origin_unaffected. All for requests with a Host header that pass sanitize_request, handlers not "
+              "mounted on internal routes, and outside the known class acao_path_rewrite (hypothesis `stable`; acao_path_rewrite_refuted is the "
+              "witness that the no-header clause fails inside it). null_origin_v0_refuted records the repaired defect. Tied to the code by a "
+              "differential run of kvarn::handle_connection over loopback (and Cors::check_cors_request directly) against the extracted model, "
+              "with cors_spec over the independent rule resolver as oracle.")
 LEVEL_NOTE = ("Trusted: Coq kernel; extraction (sample re-checked in-kernel); hand transcription of cors.rs / resolve_prime / handle_cache "
               "validated by the differential run over loopback; http::Uri as a parameter (stand-in parser in the run). No axioms.")
 TECHNIQUE = "Coq proof (all rule sets, requests, cache states; invariant over histories) + differential correspondence on kvarn::handle_connection"
